@@ -132,7 +132,7 @@ PROPERTIES = {
         ],
     },
     "C20": {
-        "modules": ["contracts.core_models", "contracts.c09_arith", "contracts.c13_types", "contracts.c13_views", "contracts.c20_regs", "contracts.c20_axi"],
+        "modules": ["contracts.core_models", "contracts.c09_arith", "contracts.c13_types", "contracts.c13_views", "contracts.c20_regs", "contracts.c20_axi", "contracts.c20_memory"],
         "level": "other",
         "explanation": "only the per-function half of the statement is within reach of contracts and is what this check decides: (0) PROVED with a sidecar loop invariant (one iteration = one clock, arbitrary valid timing on both write channels, either order): Axi4Light.await_write_request returns exactly the address/prot presented in the clock the address channel was taken and the data/strobe presented in the clock the data channel was taken, leaves the loop exactly when both were taken and withdraws each ready once its channel was taken; send_read_resp / send_write_response raise valid together with the payload and lower it only in a clock in which ready was seen, await_read_request offers ready, withdraws it only after valid was seen and returns the payload of that clock (`await` on a handshake signal = clock boundary in which the signal is high); the dispatch loops proc_read / proc_write of connect_addr_map serve every request with exactly one response, read exactly the first register whose range contains the address (response = its value, 0 for an unmapped address) resp. write exactly that register once with (address, data, Mask(stretch(strobe, 8))) and no register for an unmapped address (0-3 registers, arbitrary containment); (1a) PROVED for symbolic offsets: RegisterObject.__init__ and RegFile.__init__ place an object at parent's GLOBAL offset + own offset (so decode addresses add up over every level of nesting); BOUNDED: reg32.Output._on_write_ / Input._on_read_ executed natively for 10 placements of the signal inside the word (offset / padding / lsbs / msbs), all 16 byte strobes, old and written values, against an integer reference (exactly the strobed bytes change); (1) PROVED from the real source for symbolic address width, address, offset and size: RegisterObject._contains_addr_(addr) <=> offset <= addr < offset + size on both the shift-compare path (power-of-two size at an aligned offset) and the range-compare path -- 'exactly the addressed register', 'unmapped addresses select nothing'; (2) mechanical and exhaustive over the source: every stage of the bus write path that receives the byte-strobe mask applies it, hands it on, or stores nothing (known finding: field-based Register drops it); (3) BOUNDED (labelled): stretch(strb, k) and Mask.apply / apply_mask give new bits exactly in the strobed bytes. What the coroutine contracts establish is per call and at source level (the order of assignments and clock boundaries of each coroutine, one response per request in each dispatch iteration). NOT decided: that the state machines the compiler emits for these coroutines realise that order clock-accurately (C01, not applicable to this technique), the interplay of the read and write processes, and the master's view of ready/valid over whole transaction sequences; no simulator is available.",
         "assumptions": COMMON_ASSUME + [
